@@ -33,7 +33,8 @@ def plan(tier):
     return {"shards": 16, "timeout": 900 if tier == "quick" else 4 * 3600,
             "required_monitors": ["to-oracle", "to-must-raise", "source-unchanged", "round-trip",
                                   "definition-reference", "vector-to", "chain", "spelling",
-                                  "config-override", "conversion-history"]}
+                                  "config-override", "conversion-history"],
+            "required_tags": ["extreme-magnitudes"]}
 
 
 def cases(ctx):
@@ -253,7 +254,28 @@ def _to(case, ctx, res):
     shape = gen.draw_shape(rng)
     v, a = _mk(osy, rng, dt, shape, u1, targets=(u2,))
     dt = str(v.dtype)
-    sig = {"u1": u1, "u2": u2, "dtype": dt, "shape": list(shape)}
+    extreme = None
+    if np.dtype(dt).kind == "f" and case["i"] % 3 == 0 and v.size:
+        # magnitudes near either end of the dtype's range, chosen so that the numbers before AND after the
+        # conversion are representable with four decades to spare: only a detour (through base units, through
+        # another dtype) can overflow or underflow
+        fi = np.finfo(np.dtype(dt))
+        ratio = scale_dims(osy.units(u1))[0] / scale_dims(osy.units(u2))[0]
+        top = (case["i"] // 3) % 2 == 0
+        mag = float(np.max(np.abs(v))) or 1.0
+        with np.errstate(all="ignore"):
+            if top:
+                f = (float(fi.max) / 1e4) / (mag * max(1.0, ratio))
+            else:
+                nz = np.abs(v[v != 0])
+                f = (float(fi.tiny) * 1e4) / ((float(nz.min()) if nz.size else 1.0) * min(1.0, ratio))
+        if np.isfinite(f) and f > 0:
+            v = (v.astype(np.longdouble) * np.longdouble(f)).astype(dt)
+            if np.all(np.isfinite(v)):
+                a = osy.Array(values=v.copy(), unit=u1, name="src")
+                extreme = "top" if top else "bottom"
+                res.tag("extreme-magnitudes")
+    sig = {"u1": u1, "u2": u2, "dtype": dt, "shape": list(shape), "magnitudes": extreme}
     res.digest_src = sig
     res.sample = dict(sig, values=v)
     res.nontrivial = osy.units(u1) != osy.units(u2)
